@@ -78,10 +78,13 @@ def uses_falsy(case):
 
 
 def prio_obj(p):
-    """priorities travel JSON-able: ['F', num, den] = Fraction, ['D', 'text'] = Decimal, anything else as is"""
+    """priorities travel JSON-able: ['F', num, den] = Fraction, ['D', 'text'] = Decimal, ['inf', +-1] = the float
+    infinities, anything else as is"""
     if isinstance(p, list):
         if p[0] == 'F':
             return Fraction(p[1], p[2])
+        if p[0] == 'inf':
+            return float('inf') if p[1] > 0 else float('-inf')
         return Decimal(p[1])
     return p
 
@@ -106,7 +109,12 @@ def eff(p, key=None):
 
 
 def _dyadic(x):
-    """exact value of an int/bool/float as 'm/e' meaning m / 2**e"""
+    """exact value of an int/bool/float as 'm/e' meaning m / 2**e.  The float infinities (legal priorities: they
+    compare with every number) travel as +-2**1100, beyond every finite double and every int float() accepts -
+    sound because return values depend on the priorities only through their order
+    (theorem priorities_matter_only_by_order)"""
+    if isinstance(x, float) and x in (float('inf'), float('-inf')):
+        return '%d/0' % (2 ** 1100 if x > 0 else -(2 ** 1100))
     if isinstance(x, float):
         num, den = x.as_integer_ratio()
         return '%d/%d' % (num, den.bit_length() - 1)
@@ -137,7 +145,8 @@ SMALL_PRIOS = [None, 0, 1, 2, 3, 5, -1, -4, 2.5, 0.5, -0.5, True, False, 1.0, 2.
                2 ** 53, 2 ** 53 + 1, 1e-9, -1e300]
 # more argument kinds and values that differ only beyond 6 decimals / beyond 53 bits
 MORE_PRIOS = [['F', 1, 3], ['F', -7, 2], ['F', 0, 1], ['D', '2.5'], ['D', '0'], ['D', '-0.125'], 1e-7, 2e-7,
-              0.1 + 0.2, 0.3, 2 ** 53 + 2, 2 ** 53 + 3, -(2 ** 53) - 1, 2 ** 60 + 1, 2 ** 60, 1 - 2 ** -53, 1 + 2 ** -52]
+              0.1 + 0.2, 0.3, 2 ** 53 + 2, 2 ** 53 + 3, -(2 ** 53) - 1, 2 ** 60 + 1, 2 ** 60, 1 - 2 ** -53, 1 + 2 ** -52,
+              ['inf', 1], ['inf', -1], 1.7976931348623157e308, -1.7976931348623157e308]
 NUM_PRIOS = [p for p in SMALL_PRIOS if p is not None] + [1e-7, 2e-7, 0.3, 0.1 + 0.2, 2 ** 53 + 2]   # for key 'ident'
 
 
@@ -165,10 +174,10 @@ class C10(Property):
             'Non-trivial = Q: sorted backend split into >= 2 sub-lists AND a pop was decided by FIFO among equal '
             'priorities AND a re-add or remove happened; B: >= 2 sub-lists; H: >= 4 calls. distinct = distinct histories.')
     ASSUMPTIONS = [
-        'tasks are hashable with == consistent with hash; priorities are None or finite real numbers (no NaN, '
+        'tasks are hashable with == consistent with hash; priorities are None or real numbers incl. the float infinities (no NaN, '
         '|int| < 2**1024); priority_key = the documented default (-float(priority or 0)) or one of 4 total functions',
         'the Lean driver receives every None/bool/int/float priority as passed to add() (floats as their exact dyadic '
-        'value) and evaluates float(priority or 0) itself; only for Fraction/Decimal priorities and for a custom '
+        'value; +-inf as +-2**1100, an order-preserving stand-in) and evaluates float(priority or 0) itself; only for Fraction/Decimal priorities and for a custom '
         'priority_key the harness passes the number Python computed (exactly)',
         'heapq is modelled by its Python reference implementation (heappush/heappop with _siftdown/_siftup, as written); '
         'that the C accelerator behaves like it is checked by the H cases (list layout after every call), not proved',
@@ -248,6 +257,11 @@ class C10(Property):
         yield q([['a', 1, -(2 ** 53) - 1], ['a', 2, -(2 ** 53)], ['a', 3, 2 ** 60 + 1], ['a', 4, 2 ** 60], ['a', 5, 1 - 2 ** -53], ['a', 6, 1]] + [['p']] * 6 + drain)
         yield q([['a', 1, ['F', 1, 3]], ['a', 2, 1 / 3], ['a', 3, ['D', '0.5']], ['a', 4, ['F', 0, 1]], ['a', 5, None], ['a', 6, ['D', '0']]] + [['p']] * 6 + drain)
         yield q([['a', 1, True], ['a', 2, 1], ['a', 3, 1.0], ['a', 4, False], ['a', 5, None], ['a', 6, 0.0]] + [['p']] * 6 + drain)
+        # the float infinities are numbers too: above / below every finite priority, equal among themselves (FIFO)
+        big = 1.7976931348623157e308
+        yield q([['a', 1, big], ['a', 2, ['inf', 1]], ['a', 3, ['inf', -1]], ['a', 4, None], ['a', 5, ['inf', 1]], ['a', 6, -big],
+                 ['a', 7, ['inf', -1]], ['n']] + [['p']] * 7 + drain)
+        yield q([['a', 1, ['inf', 1]], ['a', 2, 2 ** 1023], ['a', 3, big], ['a', 1, ['inf', -1]], ['k'], ['r', 3], ['k']] + [['p']] * 2 + drain, sf=2)
         # stale caches: peek / remove / peek, peek / re-add lower / peek, pop then peek
         yield q([['a', 1, 5], ['a', 2, 1], ['k'], ['r', 1], ['k'], ['p'], ['k']] + drain)
         yield q([['a', 1, 5], ['a', 2, 1], ['k'], ['a', 1, 0], ['k'], ['n'], ['p'], ['k']] + drain)
@@ -384,7 +398,10 @@ class C10(Property):
         elif pstyle == 'small':
             pool = SMALL_PRIOS
         elif pstyle == 'more':
-            pool = rng.sample(SMALL_PRIOS + MORE_PRIOS, rng.randint(2, 8))
+            src = SMALL_PRIOS + MORE_PRIOS
+            if key == 'coarse':     # int(float('inf')) raises inside that key function: not a legal argument for it
+                src = [p for p in src if not (isinstance(p, list) and p[0] == 'inf')]
+            pool = rng.sample(src, rng.randint(2, 8))
         elif pstyle == 'num':
             pool = rng.sample(NUM_PRIOS, rng.randint(1, 6))
         else:
@@ -549,19 +566,26 @@ class C10(Property):
     def impl(self, case):
         try:
             from boltons import listutils, queueutils  # noqa: F401
-            saved = listutils.BarrelList._size_factor
+            # `_size_factor` is a private tuning knob: when it exists it is lowered so that small histories
+            # already split the backend; when a refactoring renamed / removed it the case simply runs at the
+            # shipped sub-list sizes (no return value may depend on it: sorted_queue_independent_of_size_limit)
+            barrel = getattr(listutils, 'BarrelList', None)
+            has_sf = barrel is not None and hasattr(barrel, '_size_factor')
+            saved = barrel._size_factor if has_sf else None
         except Exception as e:   # a broken module is an observation, not a crash of the check
             x = 'X' + exc_name(e)
             return {'out': [x], 'maxlists': 1} if case['k'] in 'BH' else {'S': [x], 'H': [x], 'lists_at_end': 1}
         if case['k'] == 'H':
             return self._impl_h(case)
-        listutils.BarrelList._size_factor = case['sf']
+        if has_sf:
+            barrel._size_factor = case['sf']
         try:
             if case['k'] == 'B':
                 return self._impl_b(case)
             return self._impl_q(case)
         finally:
-            listutils.BarrelList._size_factor = saved
+            if has_sf:
+                barrel._size_factor = saved
 
     @staticmethod
     def _show(lst):
@@ -610,8 +634,8 @@ class C10(Property):
                     try:
                         if kind == 'i':
                             ln += 1
-                            r = bl.insert(op[1], op[2])
-                            out.append('-' if r is None else '?%r' % (r,))
+                            bl.insert(op[1], op[2])
+                            out.append('-')     # what insert() returns is not part of the statement
                         elif kind == 'p':
                             ln = max(0, ln - 1)
                             out.append(self._val(bl.pop(op[1])))
@@ -662,15 +686,18 @@ class C10(Property):
                 style = op[4] if len(op) > 4 else 0
                 pr = prio_obj(op[2])
                 if style == 2 and pr is None:
-                    r = q.add(t)
+                    q.add(t)
                 elif style == 1:
-                    r = q.add(t, priority=pr)
+                    q.add(t, priority=pr)
                 else:
-                    r = q.add(t, pr)
-                return '-' if r is None else '?%r' % (r,)
+                    q.add(t, pr)
+                # the statement constrains what pop/peek/len return, not what add()/remove() hand back
+                # (None today): a completed call is '-', whatever it returned
+                return '-'
             if kind == 'r':
-                r = q.remove(task_obj(op[1], op[2] if len(op) > 2 else 0))
-                return '-' if r is None else '?%r' % (r,)
+                q.remove(task_obj(op[1], op[2] if len(op) > 2 else 0))
+                return '-'
+
             if kind in 'pPkK':
                 f = q.pop if kind in 'pP' else q.peek
                 if kind in 'PK':
@@ -688,6 +715,10 @@ class C10(Property):
             raise InfraError('unknown Q op %r' % (op,))
         except (CaseTimeout, InfraError):
             raise
+        except IndexError:
+            return 'IndexError'     # "raises IndexError" includes a subclass (e.g. a dedicated QueueEmpty(IndexError))
+        except KeyError:
+            return 'KeyError'
         except Exception as e:
             return exc_name(e)
 
